@@ -289,6 +289,25 @@ def run(chk, prog):
             enc = A.enclosing(idx, x, {"IfStmt"})
             ct = A.show(enc[0]["cond"]).replace(" ", "") if enc else ""
             chk.check("s>0" in ct and "xi>=-1" in ct, "R5", site, "resistive wall is used only for s > 0 and xi >= -1 (%s)" % ct, "makeImpedance:rw-guard")
+    # sibling agreement: the shielded and the free-space CSR model are the two branches of one choice and the former tends to the
+    # latter for wide gaps, so the factory must build them on the same frequency grid: same sample count, same fundamental
+    # frequency (second parameter of both), same f_max
+    csr = {}
+    for x in adds:
+        rhs = A.strip(x["args"][1], casts=False)
+        while rhs["k"] in ("MaterializeTemporaryExpr", "CXXBindTemporaryExpr", "ImplicitCastExpr", "CXXFunctionalCastExpr") and rhs.get("c"):
+            rhs = A.strip(rhs["c"][0], casts=False)
+        if rhs.get("callee_class") in ("vfps::ParallelPlatesCSR", "vfps::FreeSpaceCSR"):
+            csr[rhs["callee_class"]] = (x, rhs.get("args", [])[:3])
+    A.require(len(csr) == 2, "makeImpedance: the two CSR contributions were not found")
+    (xp, ap), (xf, af) = csr["vfps::ParallelPlatesCSR"], csr["vfps::FreeSpaceCSR"]
+    same_if = A.enclosing(idx, xp, {"IfStmt"})[:1] == A.enclosing(idx, xf, {"IfStmt"})[:1]
+    chk.check(same_if, "R5", A.loc(mk, xf), "free-space and parallel-plates CSR are the two branches of one choice", "makeImpedance:csr-branches")
+    smk0 = I.scan(mk)
+    val = lambda a_: smk0._try(a_) if smk0._try(a_) is not None else sp.Symbol(A.show(A.strip(a_)))
+    ap, af = [str(val(a_)) for a_ in ap], [str(val(a_)) for a_ in af]
+    chk.check(ap == af, "R5", A.loc(mk, xf), "free-space and parallel-plates CSR are built on the same frequency grid (n, fundamental, f_max): %s vs %s" % (af, ap),
+              "makeImpedance:csr-siblings:%s:%s" % (af, ap))
     # the passivity argument (R3) assumed positive geometry/material parameters: in the factory every argument that
     # lands on such a parameter must be provably positive (non-negative) where the model is built
     POSITIVE_PARAMS = {"vfps::ParallelPlatesCSR": ("f0", "f_max", "g"), "vfps::FreeSpaceCSR": ("f_rev", "f_max"),
